@@ -80,12 +80,31 @@ def strip_comments(s):
     return '\n'.join(l for l in _PY_LINE_END.split(s) if not l.startswith('#'))
 
 
-def run_cli(args, stdin_text, cwd):
+def run_cli(args, stdin_text, cwd, stdin_mode='pipe'):
     env = dict(os.environ)
     env['PYTHONPATH'] = impl.SRC
     env['PYTHONIOENCODING'] = 'utf-8'
     env['LC_ALL'] = 'C.UTF-8'
     env.pop(impl.GUARD, None)
+    if stdin_mode == 'file-at-offset' and stdin_text is not None:
+        # standard input is a REGULAR FILE of which the caller has already read the first line (a header): the
+        # program is what follows from the current position
+        import tempfile
+        fd, path = tempfile.mkstemp(prefix='verif-c19-stdin-', dir=cwd)
+        try:
+            with os.fdopen(fd, 'wb') as f:
+                f.write(b'header_line(that_the_caller_reads_itself).\n' + stdin_text.encode('utf8'))
+            fh = os.open(path, os.O_RDONLY)
+            try:
+                hdr = b''
+                while not hdr.endswith(b'\n'):
+                    hdr += os.read(fh, 1)
+                p = subprocess.run([sys.executable, '-m', 'yldprolog.compiler'] + args, stdin=fh, capture_output=True, cwd=cwd, env=env, timeout=600)
+            finally:
+                os.close(fh)
+        finally:
+            os.unlink(path)
+        return p.returncode, p.stdout.decode('utf8', 'replace'), p.stderr.decode('utf8', 'replace')
     p = subprocess.run([sys.executable, '-m', 'yldprolog.compiler'] + args, input=(stdin_text.encode('utf8') if stdin_text is not None else None),
                        capture_output=True, cwd=cwd, env=env, timeout=600)
     return p.returncode, p.stdout.decode('utf8', 'replace'), p.stderr.decode('utf8', 'replace')
@@ -110,10 +129,12 @@ def configurations(progs):
     for name in names:
         for flags in itertools.product([False, True], repeat=4):
             for out in ('stdout', 'file'):
-                for inp in ('file', 'stdin', 'devstdin'):
+                for inp in ('file', 'stdin', 'devstdin', 'stdin-file-at-offset'):
                     # devstdin: the source is a PATH that is not a regular file (/dev/stdin fed from a pipe,
                     # as with shell process substitution); only with all debug flags off / all on
                     if inp == 'devstdin' and flags not in ((False,) * 4, (True,) * 4):
+                        continue
+                    if inp == 'stdin-file-at-offset' and (flags not in ((False,) * 4, (True,) * 4) or name not in FULL_CROSS_PRODUCT):
                         continue
                     if name == 'large-non-ascii' and flags not in ((False,) * 4, (False, False, True, True)):
                         continue    # (the parser trace of a big file is big: only flag sets without it)
@@ -157,7 +178,7 @@ def check_config(tmp, table, cfg, cache):
     stdin_text = None
     paths = []
     for i, s in enumerate(sources):
-        if i == 0 and inp == 'stdin':
+        if i == 0 and inp in ('stdin', 'stdin-file-at-offset'):
             args.append('-')
             stdin_text = table[s][0]
             paths.append('-')
@@ -168,12 +189,12 @@ def check_config(tmp, table, cfg, cache):
         else:
             args.append(s + '.prolog')
             paths.append(s + '.prolog')
-    rc, so, se = run_cli(args, stdin_text, tmp)
+    rc, so, se = run_cli(args, stdin_text, tmp, stdin_mode=('file-at-offset' if inp == 'stdin-file-at-offset' else 'pipe'))
     produced = so
     if outpath:
         produced = open(outpath, encoding='utf8', newline='').read() if os.path.exists(outpath) else ''
     label = 'yldpc %s   (cwd holds %s%s)\n' % (' '.join(args), ', '.join(s + '.prolog' for s in sources),
-                                               '; the text of %s.prolog is piped to stdin' % sources[0] if inp in ('stdin', 'devstdin') else '')
+                                               '; the text of %s.prolog is piped to stdin' % sources[0] if inp in ('stdin', 'devstdin') else '; stdin is a regular file holding a header line, which the caller has read, and then the text of %s.prolog' % sources[0] if inp == 'stdin-file-at-offset' else '')
     kinds = [table[s][1] for s in sources]
     should_fail = any(k != 'ok' for k in kinds)
     if should_fail:
